@@ -42,7 +42,7 @@ CHECKS = {
  "C19": ("model_checking", "TLA+ spec Session.tla (StateAfter / NextState threading): MC_Session invariant ChkIsUninterrupted includes the state the next iteration uses; trace validation (Trace_Session): per iteration recorded state = state bound to the history so far (first: user grid / normalised weights / uniform), points consistent with it (usedOk), checkpoint's next state = library refinement of the recorded state and data; uninterrupted, resumed, reloaded, rolled-back runs",
          "State ids are bit-exact (hexfloat) so 'exactly' is checked literally. MPI leg is checked with C04's driver.",
          "TLC; usedOk reconstruction tolerance 8-16 eps; library refinement functions used as the definition of 'refinement' (their correctness is C07 / C08)", "5/C19"),
- "C12": ("model_checking", "TLA+ spec Loop.tla (per-rank loop machine: calls of an iteration, exactly one callback with exactly the results so far, stop iff false, Continue() for the built-in callback) explored by TLC (MC_Loop, MC_Session); trace validation (Trace_C12) of every integrand call / callback / return of serial and shim-MPI runs with scripted and built-in callbacks",
+ "C12": ("model_checking", "TLA+ spec Loop.tla (per-rank loop machine: calls of an iteration, exactly one callback with exactly the results so far, stop iff false, Continue() for the built-in callback) explored by TLC (MC_Loop, MC_Session) and, for one rank with any plan, by an inductive invariant discharged by Apalache (Loop_apa); trace validation (Trace_C12) of every integrand call / callback / return of serial and shim-MPI runs with scripted and built-in callbacks",
          "Interleaving of integrand calls and callbacks is part of the trace, so 'exactly once after each iteration' and 'immediately' are checked; the built-in callback's answer must equal Continue(target > 0, class of the combined relative error).",
          "TLC; MPI shim; the relative-error class is computed by the driver with the library's accumulate<weighted_with_variance>", "5/C12"),
  "C20": ("model_checking", "TLA+ spec Session.tla: self-composition invariant ModeNonInterference (MC_Session); four-lane trace validation (Trace_C20): each run executed in the four callback modes, per-iteration checkpoint texts, stop decisions, returned checkpoint, exit status, bytes printed per rank and the written file compared by TLC",
@@ -98,7 +98,7 @@ def main():
         "engines": [
             {"name": "tlc", "path": "/verif/spec", "serves_properties": [c["property_id"] for c in checks],
              "kind_free_text": "explicit TLA+ specification checked with TLC; trace validation / replay binds it to the C++ headers"},
-            {"name": "apalache", "path": "/verif/spec/Split_apa.tla, /verif/spec/Bins_apa.tla, /verif/spec/Layout_apa.tla, /verif/spec/Select_apa.tla, /verif/spec/FileSys_apa.tla", "serves_properties": ["C16", "C11", "C09", "C18"],
+            {"name": "apalache", "path": "/verif/spec/Split_apa.tla, /verif/spec/Bins_apa.tla, /verif/spec/Layout_apa.tla, /verif/spec/Select_apa.tla, /verif/spec/FileSys_apa.tla, /verif/spec/Loop_apa.tla", "serves_properties": ["C16", "C11", "C09", "C18", "C12"],
              "kind_free_text": "SMT-based check over unbounded integers"},
             {"name": "harness", "path": "/verif/harness", "serves_properties": [c["property_id"] for c in checks],
              "kind_free_text": "C++ drivers, scripted engines, MPI shim, syscall interposer"},
